@@ -232,13 +232,12 @@ def run_case(case):
         full0 = copy.deepcopy(info["scales"][0])
         out = dyadic_pyramid.fill_scales_for_dyadic_pyramid(
             info, target_chunk_size=T, max_scales=ms)
-    except AssertionError as exc:
-        obs["generator_assertions"] = 1
-        viol("generator-assertion", f"AssertionError {exc}",
-             KF_EXCESS if (excess0 or (T == 1 and len(set(d)) > 1)) else None)
-        return {"violations": v, "obs": obs}
     except Exception as exc:  # noqa: BLE001
-        viol("generator-raised", f"{type(exc).__name__}: {exc}")
+        # the recorded mechanism is identified by its predicate on the input, not by the
+        # class of the exception the generator happens to raise
+        obs["generator_assertions"] = int(isinstance(exc, AssertionError))
+        viol("generator-raised", f"{type(exc).__name__}: {exc}",
+             KF_EXCESS if (excess0 or (T == 1 and len(set(d)) > 1)) else None)
         return {"violations": v, "obs": obs}
     sc = out["scales"]
     obs["infos"] = 1
